@@ -26,7 +26,7 @@ from vlib import driver
 from vlib.framework import REPO, WORK
 
 PROPS = ["MxlVerif.Props.C08"]
-SCRATCH = WORK / "c08"
+SCRATCH = WORK / f"c08-{os.getpid()}"  # per run: two checks of this property may run at the same time (seed matrix)
 # IPython (pulled in by a dependency) keeps a history database in $IPYTHONDIR: parallel checks must not share it
 os.environ.setdefault("IPYTHONDIR", str(WORK / f"ipython-{os.getpid()}"))
 atexit.register(shutil.rmtree, WORK / f"ipython-{os.getpid()}", ignore_errors=True)  # runs after IPython's own hook
@@ -82,6 +82,10 @@ def render(e) -> str:
         if c[0] == "libdeep":
             return f"np.linalg.norm({args})"
         return f"(lambda z: z)({args})"
+    if t == "callkw":  # ["callkw", callee, positional args, "key=abs"]
+        args = ", ".join([render(a) for a in e[2]] + [e[3]])
+        c = e[1]
+        return f"{c[1]}({args})" if c[0] == "direct" else f"{c[1]}.{c[2]}({args})"
     if t == "attr":
         return f"{e[1]}.{e[2]}"
     if t == "attrdeep":
@@ -110,6 +114,8 @@ def wire(e):
         return [t, e[1], [wire(a) for a in e[2]]]
     if t == "boolop":
         return [t, e[1], [wire(v) for v in e[2]]]
+    if t == "callkw":
+        return ["callkw"]
     return e
 
 
@@ -135,6 +141,8 @@ def py_to_wire(node: ast.AST):
     if isinstance(node, ast.IfExp):
         return ["ifexp", py_to_wire(node.test), py_to_wire(node.body), py_to_wire(node.orelse)]
     if isinstance(node, ast.Call):
+        if node.keywords:
+            return ["callkw"]
         f = node.func
         if isinstance(f, ast.Name):
             c = ["direct", f.id]
@@ -207,6 +215,8 @@ class G:
             ex = ["num", r.choice(["0", "1", "2", "3"]), "i"]
             if r.random() < 0.5:
                 return ["binop", "Pow", self.num(d - 1), ex]
+            if r.random() < 0.25:
+                return ["call", ["direct", "power"], [self.num(d - 1), ex]]
             return ["call", ["lib", r.choice(["np", "numpy"]), "power"], [self.num(d - 1), ex]]
         if k == "abs":
             return ["call", ["direct", "abs"], [self.num(d - 1)]]
@@ -218,13 +228,20 @@ class G:
         if k == "fdiv":
             return ["binop", "FloorDiv", self.num(d - 1), self.posden(d - 1)]
         if k == "rem":
+            if r.random() < 0.25:
+                return ["call", ["direct", "remainder"], [self.num(d - 1), self.posden(d - 1)]]
             return ["call", ["lib", r.choice(["np", "numpy"]), "remainder"], [self.num(d - 1), self.posden(d - 1)]]
         if k == "ceil":
             return ["call", self.callee("ceil"), [self.num(d - 1)]]
         if not self.floaty:
             return self.leaf()
         self.used_float = True
-        k = r.choice(["div", "div", "unary", "unary", "const", "dom"])
+        k = r.choice(["div", "div", "unary", "unary", "const", "dom", "inf"])
+        if k == "inf":
+            inf = ["attr", r.choice(self.mods), "inf"]
+            if r.random() < 0.5:
+                return ["call", ["direct", "min"], [self.num(d - 1), inf]]
+            return ["call", ["direct", "max"], [self.num(d - 1), ["unary", "USub", inf]]]
         if k == "div":
             return ["binop", "Div", self.num(d - 1), self.posden(d - 1)]
         if k == "unary":
@@ -292,6 +309,9 @@ UNSUPPORTED = [
     ("log2args", True), ("remainder1", True), ("libdeep", True), ("lambda", True), ("subscript", True),
     ("str", True), ("attr_unknown", True), ("attr_mod", True), ("attrdeep", True), ("unknown_mod", True),
     ("ret_none", True), ("assign", True), ("chain_is", True),
+    # keyword arguments (MathML has none), a body without return
+    ("kw_key", True), ("kw_where", True), ("kw_default", True), ("nobody", True), ("assign_only", True),
+    ("exprstmt", True),
     # refused by the exporter although MathML could say it: allowed, not demanded
     ("mod", False), ("uadd", False), ("np.floor", False), ("np.exp", False), ("math_remainder", False),
     # functions just outside the exporter's table: refused, or exported with the same meaning (decided by the
@@ -314,7 +334,7 @@ def unsupported_expr(rng, kind, g: G):
     if kind == "np.floor":
         return ["call", ["lib", "np", "floor"], [x]]
     if kind == "boolop":
-        return ["ifexp", ["boolop", rng.choice(["and", "or"]), [g.boolean(1), g.boolean(1)]], x, y]
+        return ["ifexp", ["boolop", rng.choice(["and", "or"]), [g.boolean(1) for _ in range(rng.choice([2, 3, 3]))]], x, y]
     if kind == "invert":
         return ["ifexp", ["unary", "Invert", ["bool", True]], x, y]
     if kind == "bitand":
@@ -354,6 +374,12 @@ def unsupported_expr(rng, kind, g: G):
         return ["call", ["lib", "math", "remainder"], [x, g.posden(0)]]
     if kind == "uadd":
         return ["unary", "UAdd", x]
+    if kind == "kw_key":
+        return ["callkw", ["direct", rng.choice(["max", "min"])], [x, y], "key=abs"]
+    if kind == "kw_where":
+        return ["callkw", ["lib", rng.choice(["np", "numpy"]), "power"], [x, ["num", "2", "i"]], "where=True"]
+    if kind == "kw_default":
+        return ["binop", "Add", ["callkw", ["direct", "max"], [x, y], "default=0"], ["num", "1"]]
     raise ValueError(kind)
 
 
@@ -373,6 +399,15 @@ def mk_fn(rng, name, args, *, boolean=False, floaty=False, depth=2, expr=None, b
         params = [f"p{i}" for i in range(len(args))]
     elif style == "same":
         params = list(args)
+    elif style == "perm":
+        # a function written with the model's names, used with them in another order (a reversible law reused
+        # for the back reaction): every renaming has to happen at once
+        params = list(args)
+        if len(params) > 1:
+            k = rng.randrange(1, len(params))
+            params = params[k:] + params[:k]
+            if rng.random() < 0.3:
+                params[rng.randrange(len(params))] = "q_"
     else:
         params = [f"{'abcdefgh'[i]}_" for i in range(len(args))]
     g = G(rng, params, floaty=floaty)
@@ -389,7 +424,7 @@ def mk_fn(rng, name, args, *, boolean=False, floaty=False, depth=2, expr=None, b
             "floaty": g.used_float or floaty and _has_float(body)}, g
 
 
-mk_fn.styles = ["p", "same", "letters"]
+mk_fn.styles = ["p", "same", "letters", "perm"]
 
 
 def _names(e):
@@ -408,7 +443,7 @@ def _names(e):
     elif t == "ifexp":
         for x in e[1:4]:
             yield from _names(x)
-    elif t in ("call", "boolop"):
+    elif t in ("call", "boolop", "callkw"):
         for a in e[2]:
             yield from _names(a)
 
@@ -419,9 +454,11 @@ def _has_float(body) -> bool:
 
 
 def gen_model(rng, *, stratum: str):
-    """stratum: exact | float | names | unsupported:<kind> | refclash | boolnum | gennames | samepath | sharedfn"""
+    """stratum: exact | float | names | unsupported:<kind> | refclash | boolnum | gennames | samepath | sharedfn |
+    permargs | body | compartment"""
     floaty = stratum == "float"
-    mk_fn.styles = ["p", "letters"] if stratum == "sharedfn" else ["p", "same", "letters"]
+    mk_fn.styles = ["p", "letters"] if stratum == "sharedfn" else (
+        ["perm"] if stratum == "permargs" else ["p", "same", "letters", "perm"])
     nv, npar = rng.choice([1, 2, 2, 3]), rng.choice([1, 2, 3])
     nd, nr = rng.choice([0, 1, 2]), rng.choice([1, 2, 3])
     vs = rng.sample(PLAIN_VARS, nv)
@@ -465,7 +502,17 @@ def gen_model(rng, *, stratum: str):
     if stratum == "refclash":
         nr = max(nr, 2)
         rs = rng.sample(PLAIN_RXNS, nr)
-        finding = "F-C08-7"
+        # components that are called like a species reference (`<species>ref`, `<species>ref_`)
+        for extra in rng.sample([f"{clash_species}ref", f"{clash_species}ref_", f"{vs[-1]}ref"], rng.choice([0, 1, 2])):
+            if extra not in ps + ds + vs:
+                if rng.random() < 0.6:
+                    ps.append(extra)
+                    plain_ps.append(extra)
+                    model["params"].append([extra, ["val", rng.choice(vals)]])
+                else:
+                    vs.append(extra)
+                    model["vars"].append([extra, ["val", rng.choice(vals)]])
+                avail = avail + [extra]
     used_computed: set[str] = set()
     for i, r in enumerate(rs):
         args = rng.sample(avail, min(len(avail), rng.choice([1, 2, 3])))
@@ -526,6 +573,22 @@ def gen_model(rng, *, stratum: str):
                                      {"name": f"init_{n}", "fn": f, "stoich": [[rng.choice(vs), ["num", rng.choice(COEFS)]]]})
             else:
                 model["derived"].append([f"init_{n}", f])
+    if stratum == "body":
+        # statements after the first `return` are never reached: a second return, an assignment, a return of
+        # something the exporter could not represent
+        fns = [m_[1] for m_ in model["derived"]] + [r["fn"] for r in model["rxns"]]
+        for f in rng.sample(fns, rng.choice([1, min(2, len(fns))])):
+            g = G(rng, f["params"], floaty=False)
+            tail = rng.choice(["ret", "ret", "other", "ret_unsupported", "ret_none"])
+            if tail == "ret":
+                f["body"] = f["body"] + [["ret", f_expr_using_all(rng, g, f["params"])]]
+            elif tail == "other":
+                f["body"] = f["body"] + [["other"]]
+                f["assign_src"] = render(f_expr_using_all(rng, g, f["params"]))
+            elif tail == "ret_none":
+                f["body"] = f["body"] + [["ret"]]
+            else:
+                f["body"] = f["body"] + [["ret", ["call", ["direct", "helper"], [g.num(1)]]]]
     must_raise = False
     kind = stratum
     if stratum.startswith("unsupported:"):
@@ -537,6 +600,15 @@ def gen_model(rng, *, stratum: str):
         g = G(rng, f["params"], floaty=False)
         if k == "ret_none":
             f["body"] = [["ret"]]
+        elif k == "nobody":
+            f["body"] = []
+            f["doc"] = True
+        elif k == "exprstmt":
+            f["body"] = [["other"], ["ret", f_expr_using_all(rng, g, f["params"])]]
+            f["stmt_src"] = render(g.num(1))  # an expression statement that is not a docstring
+        elif k == "assign_only":
+            f["body"] = [["other"]]
+            f["assign_src"] = render(f_expr_using_all(rng, g, f["params"]))
         elif k == "assign":
             f["body"] = [["other"], ["ret", ["name", "tmp_"]]]
             f["assign_src"] = render(f_expr_using_all(rng, g, f["params"]))
@@ -567,6 +639,20 @@ def gen_model(rng, *, stratum: str):
             "floaty": floaty}
     if stratum == "samepath":
         case["prev"] = gen_model(rng, stratum="exact")["model"]
+    if stratum == "compartment":
+        # the `compartments` option of `write`: another size, another id, several compartments
+        opt = rng.choice(["size", "size", "id", "two"])
+        if opt == "size":
+            case["compartments"] = [["compartment", rng.choice(["2", "1/2", "4"])]]
+        elif opt == "id":
+            case["compartments"] = [[rng.choice(["c", "cell", "cytosol"]), "1"]]
+        else:
+            case["compartments"] = [["compartment", "1"], ["c2", rng.choice(["1", "2"])]]
+        if opt != "two":  # a second compartment holds no species: its size is immaterial
+            case["finding"] = "F-C08-14"
+        else:
+            case["options"] = rng.choice([{"model_name": "my model-1"}, {"units": True}, {"model_name": "m2", "units": True},
+                                          {"time_units": "second", "extent_units": "mole"}])
     return case
 
 
@@ -588,6 +674,8 @@ def fn_source(f) -> str:
     for st in f["body"]:
         if st[0] == "ret":
             lines.append("    return" if len(st) == 1 else f"    return {render(st[1])}")
+        elif "stmt_src" in f:
+            lines.append(f"    {f['stmt_src']}")
         else:
             lines.append(f"    tmp_ = {f.get('assign_src', '1.0')}")
     return "\n".join(lines) + "\n"
@@ -608,7 +696,7 @@ def all_fns(model):
 
 def module_source(model) -> str:
     head = ("import math\nimport numpy\nimport numpy as np\nimport scipy\n"
-            "from numpy import sqrt, ceil, log, log10, log2, sin, cos, tan\n\n\ndef helper(z):\n    return z\n\n\n")
+            "from numpy import sqrt, ceil, log, log10, log2, sin, cos, tan, power, remainder\n\n\ndef helper(z):\n    return z\n\n\n")
     seen, parts = set(), []
     for f in all_fns(model):
         if f["fname"] not in seen:  # a function shared by several components is defined once
@@ -844,7 +932,21 @@ def real_worker(job):
             except Exception as e:  # noqa: BLE001
                 out["orig"] = {"err": type(e).__name__, "msg": str(e)[:200]}
         try:
-            sbml.write(m, xml)
+            if case.get("compartments"):
+                from mxlpy.sbml._data import Compartment
+
+                import libsbml
+
+                from mxlpy.sbml._data import AtomicUnit
+
+                opts = dict(case.get("options") or {})
+                if opts.pop("units", False):
+                    opts["units"] = {"mmol": AtomicUnit(kind=libsbml.UNIT_KIND_MOLE, exponent=1, scale=-3, multiplier=1)}
+                sbml.write(m, xml, compartments={
+                    cid: Compartment(name=cid, dimensions=3, size=_fl(size), units="litre", is_constant=True)
+                    for cid, size in case["compartments"]}, **opts)
+            else:
+                sbml.write(m, xml)
         except Exception as e:  # noqa: BLE001
             out["export"] = {"err": type(e).__name__, "msg": str(e)[:200]}
             return out
@@ -958,7 +1060,8 @@ def judge_case(ctx, case, R, M):
         "dynamic": [n for n, _ in desc["derived"]] + [r["name"] for r in desc["rxns"]],
     }
     kinds["all"] = kinds["static"] + kinds["dynamic"]
-    small = {k: case.get(k) for k in ("kind", "model", "states", "must_raise", "finding", "floaty", "source", "prev")}
+    small = {k: case.get(k) for k in ("kind", "model", "states", "must_raise", "finding", "floaty", "source", "prev",
+                                       "compartments", "options") if k not in ("compartments", "options") or case.get(k)}
     r_exp = "error" if "err" in R["export"] else "ok"
     m_exp = None if M is None else ("error" if "err" in M["export"] else "ok")
     if M is not None and bool(M["unsupported"]) != bool(case["must_raise"]):
@@ -1037,8 +1140,9 @@ def judge_case(ctx, case, R, M):
     for k, v in stats.items():
         ctx.hist[f"numbers {k}"] = ctx.hist.get(f"numbers {k}", 0) + v
     fid = case["finding"]
-    if fid == "F-C08-9":
+    if fid in ("F-C08-9", "F-C08-14"):
         Mv = None  # pysbml refuses booleans as numbers; the model does not predict third-party exceptions
+        # (F-C08-14: the Lean document has the default compartment only)
     ctx.judge(small, Rv, S, Mv, finding=fid, what="export -> import changes names, initial values, derived values, fluxes or derivatives")
 
 
@@ -1144,7 +1248,7 @@ def shrink(ctx, viol, budget: int = 40):
                 break
             spent += 1
             try:
-                c2 = prepare({k: cand.get(k) for k in ("kind", "model", "states", "must_raise", "finding", "floaty", "prev")})
+                c2 = prepare({k: cand.get(k) for k in ("kind", "model", "states", "must_raise", "finding", "floaty", "prev", "compartments", "options")})
                 (R, M), = evaluate(ctx, [c2])
                 probe = Ctx(ctx.prop, ctx.tier, ctx.seed)
                 probe.known, probe.fixed = ctx.known, ctx.fixed
@@ -1173,7 +1277,7 @@ def prepare(case):
 def evaluate(ctx, cases):
     reqs = [{"op": "c08", "model": c["wire"], "states": c["states"]} for c in cases]
     Ms = driver.call_batch(reqs) if ctx.driver_ok else [None] * len(cases)
-    jobs = [({k: c.get(k) for k in ("kind", "model", "states", "must_raise", "source", "prev", "prev_source")},
+    jobs = [({k: c.get(k) for k in ("kind", "model", "states", "must_raise", "source", "prev", "prev_source", "compartments", "options")},
              dict(m["names"]) if m is not None else {}) for c, m in zip(cases, Ms)]
     Rs = pool().map(real_worker, jobs, chunksize=4)
     return list(zip(Rs, Ms))
@@ -1189,7 +1293,9 @@ def setup(ctx):
         "fractional and computed coefficients of either sign) whose functions are random typed single-expression "
         "rate laws over + - * / // ** unary minus, conditional expressions, (chained) comparisons, not, abs/max/min/"
         "ceil/power/remainder and, in the float stratum, division and transcendental functions; strata: exact, float, "
-        "names needing escaping, every unsupported construct, species-reference clash, booleans as numbers; "
+        "names needing escaping, every unsupported construct (keyword arguments and bodies without return included), "
+        "species-reference clash (also with components called <species>ref), booleans as numbers, permuted argument "
+        "names, statements after the first return, options of write; "
         "3 states each; distinct = distinct (model, states); non-trivial = export and import succeeded"
     )
     ctx.assumptions += [
@@ -1197,16 +1303,17 @@ def setup(ctx):
         "(pysbml's identifier mapping is modelled as nameToPy)",
         "numbers are compared exactly where double arithmetic is exact and to 1e-9 relative otherwise "
         "(sympy reorders expressions on import)",
-        "keyword arguments, statements other than return, modifiers, units and non-default compartments are outside "
-        "the model",
+        "modifiers, units, the model name and compartments other than the default one are outside the Lean model "
+        "(stratum `compartment` is oracle-only; known finding F-C08-14)",
     ]
     ctx.trusted_base += ["translate/c08.py renders tables and structural choices of _export.py faithfully (refuses otherwise)"]
 
 
 def strata(ctx):
-    n = ctx.n(1, 40)
-    plan = [("exact", 140 * n), ("float", 90 * n), ("names", 33 * n), ("refclash", 8 * n), ("boolnum", 9 * n),
-            ("gennames", 24 * n), ("samepath", 16 * n), ("sharedfn", 30 * n)]
+    n = ctx.n(1, 32)
+    plan = [("exact", 130 * n), ("float", 80 * n), ("names", 30 * n), ("refclash", 16 * n), ("boolnum", 9 * n),
+            ("gennames", 24 * n), ("samepath", 16 * n), ("sharedfn", 26 * n), ("permargs", 24 * n), ("body", 20 * n),
+            ("compartment", 10 * n)]
     plan += [(f"unsupported:{k}", (2 if k.startswith("near:") else 3) * n) for k, _ in UNSUPPORTED]
     return plan
 
@@ -1243,7 +1350,7 @@ def run(ctx):
 
 def replay(ctx, rp):
     case = rp["case"]
-    case = prepare({k: case.get(k) for k in ("kind", "model", "states", "must_raise", "finding", "floaty", "prev")})
+    case = prepare({k: case.get(k) for k in ("kind", "model", "states", "must_raise", "finding", "floaty", "prev", "compartments", "options")})
     (R, M), = evaluate(ctx, [case])
     print(case["source"])
     print("R =", json.dumps(R, indent=1)[:4000])
